@@ -181,12 +181,21 @@ def _eval_chunk(args):
     return out
 
 
+def _noop(i):
+    time.sleep(0.05)
+    return i
+
+
 class Replayer:
     """Replays TLC records into accelforge in worker processes while TLC generates the next batch."""
 
     def __init__(self, ck: Check, which: str, nproc: int):
         self.ck, self.which = ck, which
         self.pool = ProcessPoolExecutor(nproc, initializer=_worker_init)
+        # Fork every worker NOW, while this process is still single-threaded: a fork that happens while another
+        # thread (RoleA) is inside subprocess.Popen can deadlock the child on Popen's inherited pipe (this hung the
+        # whole check for hours in a fresh-sandbox run).
+        list(self.pool.map(_noop, range(4 * nproc)))
         self.futs = []
         self.info = {}
 
